@@ -119,7 +119,7 @@ static std::vector<int> lane_weights(const std::string &lane, Rng &r) {
     } else if (lane == "tree" || lane == "durable") {
         w_set(w, links, 5); w_set(w, attrs, 4); w_set(w, props, 4); w_set(w, deletes, 2); w_set(w, arrdata, 2); w_set(w, dimops, 3); w_set(w, frameops, 2);
         w[OP_arr_write] = 5; w[OP_reopen] = 12; w[OP_flush] = 4; w[OP_kill] = 4; w[OP_clock] = 4; w[OP_mk_graph] = 3; w[OP_mk_fitted] = 1; w[OP_del_misdirected] = 1; w[OP_replace_member] = 2;
-        if (lane == "durable") { w[OP_flush] = 14; w[OP_kill] = 14; w[OP_flush_fault] = 6; w[OP_use_stale] = 14; w[OP_keep] = 4; w[OP_drop] = 1; w[OP_reopen] = 10;
+        if (lane == "durable") { w[OP_flush] = 14; w[OP_kill] = 14; w[OP_flush_fault] = 6; w[OP_close_fault] = 5; w[OP_use_stale] = 14; w[OP_keep] = 4; w[OP_drop] = 1; w[OP_reopen] = 10;
                                  w[OP_arr_read] = 6; w[OP_frame_read_row] = 4; w[OP_dim_read] = 3; }
     } else if (lane == "names" || lane == "idhist") {
         w[OP_mk_graph] = 4; w[OP_mk_fitted] = 2; w[OP_replace_member] = 10; if (lane == "idhist") { w[OP_force_id] = 3; w[OP_clock] = 6; }
